@@ -342,6 +342,11 @@ fn o1_counts(src: &[u8]) -> Vec<[u64; 256]> {
 
 /// tag of the known input class this source belongs to, if any
 fn r4_known_class(order: u8, src: &[u8]) -> Option<String> {
+    if src.is_empty() {
+        // the frequency table of an empty input is the lone terminator 0x00, which the reader takes
+        // for "symbol 0" and then reads the states as its frequency
+        return Some("rans4x8-empty-input".into());
+    }
     let rows: Vec<[u64; 256]> = if order == 0 { vec![o0_counts(src)] } else { o1_counts(src) };
     for r in &rows {
         match classify_row(r) {
@@ -458,7 +463,7 @@ fn r4d_case(c: &Case) -> Obs {
                 Obs::ok(obs, true)
             }
         }
-        Outcome::Done(Err(e)) => Obs::fail(format!("Err:{}", errkind(&e)), &tag("decode-error"), format!("len={}", src.len())),
+        Outcome::Done(Err(e)) => Obs::fail("Err", &tag("decode-error"), format!("Err:{} len={}", errkind(&e), src.len())),
         Outcome::Panicked(m) => Obs::fail("Panic", &tag("decode-panic"), m),
     }
 }
